@@ -787,6 +787,9 @@ func (s *Subscription) handleReaccess(t *rescache.Throttle) {
 	s.flags &= ^flagReaccess
 
 	if s.direct == 0 {
+		if verifhook.Enabled && s.flags&flagAccessCalled != 0 {
+			verifhook.Site("reaccess.inflight", s.c.CID(), s.rid)
+		}
 		return
 	}
 
